@@ -261,6 +261,25 @@ FirstBadCond(it, k) ==
                                              \o "-but-execution-" \o (IF f = "yes" THEN "follows" ELSE "leaves") \o "-the-history"
        ELSE FirstBadCond(it, k + 1)
 
+(* ---- C41: a new input produced by dynamic symbolic execution for an unexplored branch ---- *)
+(*   [t |-> "dse", prog, start, w, budget, sols: <<[env, dst (block name), prev (address inside the block the branch leaves)]>>,       *)
+(*    ranges: <<[loc, lo, hi]>> address range of every block]                                                                     *)
+(* the reference execution of the program from the new input must go to block dst right after the block containing prev          *)
+RangeOf(it, name) == it.ranges[CHOOSE i \in 1..Len(it.ranges) : it.ranges[i].loc = name]
+TakesBranch(it, s) ==
+  LET r == RunGraph(it.prog, StartIdx(it.prog, it.start), s.env, it.w, it.budget) IN
+  IF ~r.ok THEN (IF r.unk THEN "unk" ELSE "undef")
+  ELSE IF \E i \in 1..(Len(r.trace) - 1) :
+            /\ it.prog[r.trace[i + 1]].loc = s.dst
+            /\ RangeOf(it, it.prog[r.trace[i]].loc).lo <= s.prev /\ s.prev < RangeOf(it, it.prog[r.trace[i]].loc).hi
+       THEN "ok"
+       ELSE IF \E i \in 1..Len(r.trace) : it.prog[r.trace[i]].loc = s.dst THEN "reaches-the-block-but-not-through-that-branch"
+       ELSE "does-not-take-the-branch"
+RECURSIVE FirstBadDse(_, _)
+FirstBadDse(it, i) == IF i > Len(it.sols) THEN "ok"
+                      ELSE LET v == TakesBranch(it, it.sols[i]) IN
+                           IF v \in {"ok", "unk"} THEN FirstBadDse(it, i + 1) ELSE "bad:" \o ToString(i) \o ":" \o v
+
 Verdict(it) ==
   CASE it.t = "symb" -> FirstBadSymb(it, 1)
     [] it.t = "equiv" -> FirstBadEquiv(it, 1)
@@ -269,5 +288,6 @@ Verdict(it) ==
     [] it.t = "dflow" -> DflowVerdict(it)
     [] it.t = "slice" -> FirstBadSlice(it, 1)
     [] it.t = "pathcond" -> FirstBadCond(it, 1)
+    [] it.t = "dse" -> FirstBadDse(it, 1)
 Report == lo < hi \/ PrintT("V " \o ToString(cur) \o " " \o Verdict(Items[cur]))
 =============================================================================
